@@ -606,4 +606,184 @@ example : dtVolume cfgQ 1 10 [phQ 0 1, phQ 1 3] = 1 / 6 ∧ dtVolume cfgQ 1 10 [
 
 end steps
 
+/-! ## getDt, site competition, whole step -/
+section wholestep
+open KawinV.DtRules
+variable {α : Type} [Field α] [LinearOrder α] [IsStrictOrderedRing α] [Trans α]
+variable {phases phases' : List (Phase α)}
+
+/-- `getDt` with any order-independent volume rule does not depend on the order of the phases -/
+theorem getDtWith_perm (vol : Cfg α → α → α → List (Phase α) → α)
+    (hvol : ∀ c v m, vol c v m phases = vol c v m phases')
+    (c : Cfg α) (s : StepIn α) (h : phases ~ phases') :
+    getDtWith vol c s phases = getDtWith vol c s phases' := by
+  unfold getDtWith limits
+  simp only [dtPSD_perm c s.n s.Tprev s.Tcur _ h, dtNuc_perm c s.n _ _ h, dtRcrit_perm c s.n _ _ h, hvol]
+
+/-- **time step**: `getDt` of the repaired code returns the same step for every listing of the phases -/
+theorem getDt_perm (c : Cfg α) (s : StepIn α) (h : phases ~ phases') :
+    getDt c s phases = getDt c s phases' :=
+  getDtWith_perm dtVolume (fun c v m => dtVolume_perm c v m h) c s h
+
+/-- occupied sites: a sum over the phases of one kind -/
+theorem occupied_perm (pred : Site → Bool) (w : Phase α → α) (h : phases ~ phases') :
+    occupied pred w phases = occupied pred w phases' := by
+  unfold occupied
+  exact sumL_perm ((h.filter _).map _)
+
+theorem find_perm_of_unique {β : Type} (q : β → Bool) {l l' : List β} (h : l ~ l')
+    (huniq : ∀ a ∈ l, ∀ b ∈ l, q a = true → q b = true → a = b) : l.find? q = l'.find? q := by
+  cases h1 : l.find? q with
+  | none =>
+    rw [List.find?_eq_none] at h1
+    symm; rw [List.find?_eq_none]
+    intro x hx; exact h1 x (h.mem_iff.mpr hx)
+  | some a =>
+    have ha := List.mem_of_find?_eq_some h1
+    have hqa := List.find?_some h1
+    cases h2 : l'.find? q with
+    | none =>
+      rw [List.find?_eq_none] at h2
+      exact absurd hqa (h2 a (h.mem_iff.mp ha))
+    | some b =>
+      have hb := h.mem_iff.mpr (List.mem_of_find?_eq_some h2)
+      have hqb := List.find?_some h2
+      rw [huniq a ha b hb hqa hqb]
+
+/-- sites on parent precipitates: parents are found by NAME, so the listing order is irrelevant
+(phase names are distinct) -/
+theorem parentSites_perm (NA : α) (parents : List Nat) (h : phases ~ phases')
+    (hid : (phases.map (·.id)).Nodup) :
+    parentSites NA phases parents = parentSites NA phases' parents := by
+  unfold parentSites
+  congr 1
+  apply List.map_congr_left
+  intro q _
+  rw [find_perm_of_unique (fun ph => ph.id == q) h]
+  intro a ha b hb hqa hqb
+  have e : a.id = b.id := by
+    rw [beq_iff_eq] at hqa hqb; rw [hqa, hqb]
+  exact List.inj_on_of_nodup_map hid ha hb e
+
+/-- **site competition**: the nucleation sites available to phase `p` do not depend on the order in
+which the phases (the others and `p` itself) are listed. -/
+theorem calcSites_perm (sc : SiteCfg α) (p : Phase α) (h : phases ~ phases')
+    (hid : (phases.map (·.id)).Nodup) :
+    calcSites sc phases p = calcSites sc phases' p := by
+  unfold calcSites
+  simp only [parentSites_perm sc.NA p.parents h hid, occupied_perm _ _ h]
+
+/-- in particular under a re-listing of the OTHER phases only -/
+theorem calcSites_others (sc : SiteCfg α) (p : Phase α) (pre post others' : List (Phase α))
+    (h : pre ++ post ~ others') (hid : ((pre ++ p :: post).map (·.id)).Nodup) :
+    calcSites sc (pre ++ p :: post) p = calcSites sc (p :: others') p := by
+  apply calcSites_perm sc p _ hid
+  exact (List.perm_middle).trans (List.Perm.cons p h)
+
+/-- **whole step, as far as the model goes**: for a re-listing of the phases the time step is the
+same and every phase is assigned the number of sites it had in the original listing. -/
+theorem stepSummary_perm (c : Cfg α) (sc : SiteCfg α) (s : StepIn α) (h : phases ~ phases')
+    (hid : (phases.map (·.id)).Nodup) :
+    stepSummary c sc s phases' = ((stepSummary c sc s phases).1, phases'.map (calcSites sc phases)) := by
+  unfold stepSummary
+  simp only [getDt_perm c s h]
+  congr 1
+  apply List.map_congr_left
+  intro p _
+  exact (calcSites_perm sc p h hid).symm
+
+instance : Inhabited (Phase α) :=
+  ⟨{ id := 0, site := .bulk, psd := [], size := [], bounds := [], growth := [], dissIdx := 0,
+     nucPrev := 0, nucCur := 0, rcPrev := 0, rcCur := 0, dG := 0, Rnuc := 0, vmBeta := 0, areaFactor := 0,
+     volumeFactor := 0, gbRemoval := 0, gbk := 0, parents := [], x := [] }⟩
+
+/-- the same in index form: `step (phases∘π) = (dt, sites∘π)` -/
+theorem stepSummary_equivariant [Inhabited α] (c : Cfg α) (sc : SiteCfg α) (s : StepIn α) (phases : List (Phase α))
+    (hid : (phases.map (·.id)).Nodup) (p : List Nat) (hp : p ~ List.range phases.length) :
+    stepSummary c sc s (take p phases)
+      = ((stepSummary c sc s phases).1, take p (stepSummary c sc s phases).2) := by
+  rw [stepSummary_perm c sc s (take_perm p phases hp).symm hid]
+  congr 1
+  simp only [stepSummary]
+  exact (take_map p phases _ (mem_lt_of_perm_range hp)).symm
+
+end wholestep
+
+/-! ## diffusion step: `D·∇x` commutes with a re-listing of the independent elements -/
+section diffusion
+variable {α : Type} [Field α] [Inhabited α]
+
+theorem psumL_eq_sum (l : List α) : Permute.sumL l = l.sum := by
+  induction l with
+  | nil => rfl
+  | cons x xs ih => simp [Permute.sumL, ih]
+
+theorem zipWith_take (f : α → α → α) (p : List Nat) (r x : List α) (hr : ∀ i ∈ p, i < r.length)
+    (hx : ∀ i ∈ p, i < x.length) :
+    List.zipWith f (take p r) (take p x) = take p (List.zipWith f r x) := by
+  unfold take
+  rw [List.zipWith_map_left, List.zipWith_map_right, List.zipWith_self]
+  apply List.map_congr_left
+  intro i hi
+  have h1 := hr i hi
+  have h2 := hx i hi
+  have h3 : i < (List.zipWith f r x).length := by simp [h1, h2]
+  simp [h1, h2]
+
+/-- a row·vector product does not depend on the common listing order of the two factors -/
+theorem dot_take (p : List Nat) (r x : List α) (hlen : r.length = x.length)
+    (hp : p ~ List.range r.length) : dot (take p r) (take p x) = dot r x := by
+  unfold dot
+  have hin := mem_lt_of_perm_range hp
+  rw [zipWith_take _ p r x hin (by rw [← hlen]; exact hin), psumL_eq_sum, psumL_eq_sum]
+  apply List.Perm.sum_eq
+  apply take_perm
+  simpa [hlen] using hp
+
+/-- **diffusion profiles**: with the diffusivity matrix re-listed as `P·D·Pᵀ` and the gradients re-listed
+the same way, the fluxes `D·∇x` come out re-listed the same way — the explicit diffusion step commutes
+with a permutation of the independent elements. -/
+theorem matVec_equivariant (p : List Nat) (d : List (List α)) (x : List α) (hd : d.length = x.length)
+    (hrow : ∀ r ∈ d, r.length = x.length) (hp : p ~ List.range x.length) :
+    matVec (permMat p d) (take p x) = take p (matVec d x) := by
+  unfold matVec permMat takeCols takeRows
+  have hin : ∀ i ∈ p, i < d.length := by rw [hd]; exact mem_lt_of_perm_range hp
+  rw [take_map p d _ hin, List.map_map]
+  apply List.map_congr_left
+  intro r hr
+  have hrd : r ∈ d := (take_perm p d (by rw [hd]; exact hp)).mem_iff.mp hr
+  simp only [Function.comp]
+  exact dot_take p r x (hrow r hrd) (by rw [hrow r hrd]; exact hp)
+
+end diffusion
+
+/-! ## non-vacuity: concrete instances of the hypotheses, evaluated on the model -/
+section examples
+
+/-- evaluate the model on literals -/
+macro "ev" : tactic => `(tactic| simp [argsort, unsortIdx, sortIdx, sortedPairs, sortedKeys, List.mergeSort,
+  List.zipIdx, keyLe, List.MergeSort.Internal.splitInTwo, take, wrapVec, wrapMat, wrapVecRef, permMat, takeRows,
+  takeCols])
+
+-- the ternary listings used by the tests: NI first, solutes in either order
+example : argsort ["NI", "CR", "AL"] = [2, 1, 0] ∧ unsortIdx ["NI", "CR", "AL"] = [2, 1, 0] := by ev
+example : argsort ["NI", "AL", "CR"] = [1, 2, 0] ∧ unsortIdx ["NI", "AL", "CR"] = [2, 0, 1] := by ev
+-- a 3-cycle is NOT its own inverse: sortIndices ≠ unsortIndices, so exchanging them is visible
+example : argsort ["CR", "NI", "AL"] = [2, 0, 1] ∧ unsortIdx ["CR", "NI", "AL"] = [1, 2, 0] := by ev
+example : take (unsortIdx ["CR", "NI", "AL"]) (take (sortIdx ["CR", "NI", "AL"]) [10, 20, 30]) = [10, 20, 30] := by ev
+example : take (sortIdx ["CR", "NI", "AL"]) (take (sortIdx ["CR", "NI", "AL"]) [10, 20, 30]) ≠ [10, 20, 30] := by ev
+-- the hypotheses of the equivariance theorems: distinct names, a permutation of the positions
+example : ["NI", "CR", "AL"].Nodup ∧ [1, 0] ~ List.range ["CR", "AL"].length := by
+  refine ⟨by decide, List.Perm.swap _ _ _⟩
+-- wrapper with the identity backend on the solutes of a ternary: the composition comes back as listed
+example : wrapVec (fun _ v => v) ["CR", "AL"] [8, 10] = [8, 10] := by ev
+-- the matrix wrapper puts the alphabetical backend answer into the listed order: P·D·Pᵀ
+example : wrapMat (fun _ _ => [[11, 12], [21, 22]]) ["CR", "AL"] [8, 10] = [[22, 21], [12, 11]] := by ev
+-- driving-force composition with the reference element: backend answers (AL, CR, NI), user listed (NI; CR, AL)
+example : wrapVecRef (fun _ _ _ => [1, 2, 3]) "NI" ["CR", "AL"] [8, 10] = [2, 1] := by ev
+-- phase hypotheses: distinct phase names, a re-listing
+example : (([phQ 0 1, phQ 1 3] : List (DtRules.Phase ℚ)).map (·.id)).Nodup := by decide
+
+end examples
+
 end KawinV.Props.C11
